@@ -151,17 +151,19 @@ def build_items(spec):
                     continue
             return ("t", dt, list(shape), raw)
 
-    objs = [{1, 2, 3}, {"k": [1, 2], "q": (3, "x")}, (1, "x", 2.5), frozenset({"a", "b"})]
+    objs = [{1, 2, 3}, (("k", (1, 2)), ("q", (3, "x"))), (1, "x", 2.5), {"a", "b"}]
     m = [("a", T("float32", [2, 3])), ("b", T("int64", [r.randint(1, 3)])), ("z", T("float32", [0, 3])),
          ("big", T("float32", [r.randint(8, 12), 3])), ("c", T("complex64", [r.randint(1, 3)])),
          ("h", T("bfloat16", [r.choice([1, 3, 5])])), ("u", T("uint8", [])), ("o", ("o", r.choice(objs))),
          ("p", ("p", r.randint(1, 99))), ("s", ("p", "str%d" % r.randint(0, 9)))]
     n = [("x", T("int16", [4])), ("lst", ("l", [T("float64", [2]), ("p", 3.5)])), ("e", T("int32", [0])),
-         ("t", T("bool", [5])), ("big2", T("int64", [r.randint(6, 8), 2])), ("o2", ("o", {"w": [1.5, 2.5], "n": 3})),
+         ("t", T("bool", [5])), ("big2", T("int64", [r.randint(6, 8), 2])), ("o2", ("o", (("w", (1.5, 2.5)), ("n", 3)))),
          ("f", T("float16", [r.randint(1, 9)]))]
     if spec.get("small"):
         m = [x for x in m if x[0] in spec["small"]]
         n = [x for x in n if x[0] in spec["small"]]
+    if spec.get("groups", 2) == 1:
+        n = []
     r.shuffle(m)
     r.shuffle(n)
     out = {}
@@ -295,6 +297,35 @@ class Snap:
             return f"slab{len(rs)}"
         return "plain"
 
+    def hypothesis_violations(self):
+        """The well-formedness the theorems assume of a committed manifest, checked on this real snapshot."""
+        bad = []
+        seen = {}
+        for p, e in self.entries.items():
+            for te in tensor_entries(e):
+                size = self.files.get(te.location)
+                if size is None:
+                    bad.append(f"{p}: location {te.location} is not a payload file")
+                    continue
+                if te.serializer != "buffer_protocol":
+                    if te.byte_range is not None:
+                        bad.append(f"{p}: torch_save entry with byte_range")
+                    continue
+                need = ESZ[te.dtype.replace("torch.", "")] * prod(te.shape)
+                if te.byte_range is None:
+                    if size != need:
+                        bad.append(f"{p}: file size {size} != esize*numel {need}")
+                else:
+                    lo, hi = te.byte_range
+                    if not (0 <= lo and hi - lo == need and hi <= size):
+                        bad.append(f"{p}: byte_range {te.byte_range} inconsistent with esize*numel {need} / size {size}")
+                    if lo < hi:
+                        k = (te.location, lo, hi)
+                        if k in seen:
+                            bad.append(f"{p} and {seen[k]} share the non-empty range {k}")
+                        seen[k] = p
+        return bad
+
     def close(self):
         shutil.rmtree(self.root, ignore_errors=True)
 
@@ -311,6 +342,17 @@ def entry_reads(e):
         return [one(s.tensor) for s in e.shards]
     if n == "ObjectEntry":
         return [(e.location, None)]
+    return []
+
+
+def tensor_entries(e):
+    n = type(e).__name__
+    if n == "TensorEntry":
+        return [e]
+    if n == "ChunkedTensorEntry":
+        return [c.tensor for c in e.chunks]
+    if n == "ShardedTensorEntry":
+        return [s.tensor for s in e.shards]
     return []
 
 
@@ -494,34 +536,48 @@ def sweep(ctx: Ctx, res: Result, S: Snap, cases: dict, deadline: float, every_le
     limits = [None, 8, 20]
     files = sorted(S.files)
     rng.shuffle(files)
-    for rel in files:
+    per_file = max(1.0, (deadline - time.time()) / max(1, len(files)))
+    for k, rel in enumerate(files):
         size = S.files[rel]
+        file_deadline = min(deadline, time.time() + 2.5 * per_file)
         touching = [p for p in paths if any(loc == rel for loc, _ in S.reads[p])]
         others = [p for p in paths if p not in touching]
-        base_pts = set(damage_points(S, rel, False))
-        for dmg in damage_points(S, rel, every_length):
-            if time.time() > deadline:
-                res.notes.append("time budget reached: sweep cut short")
-                return
-            full = dmg in base_pts
-            copy = make_copy(ctx, S.dir, rel, dmg)
-            try:
-                with safe_gc():
+        base = damage_points(S, rel, False)
+        pts = damage_points(S, rel, every_length)
+        heavy = {("del",), ("trunc", size // 2)} & set(base)
+        bnd = [d for d in base if d not in heavy and cut_class(S, rel, d) in ("at-boundary", "boundary-1", "size-1")]
+        rest = [d for d in base if d not in heavy and d not in bnd]
+        if ctx.thorough:
+            restore_pts = set(base)
+        else:
+            restore_pts = heavy | set(rng.sample(bnd, min(len(bnd), 4))) | set(rng.sample(rest, min(len(rest), 1)))
+        # base points first (deleted, boundaries), the every-length points afterwards
+        order = base + [d for d in pts if d not in set(base)]
+        with safe_gc():
+            for dmg in order:
+                if time.time() > file_deadline:
+                    res.notes.append(f"time budget: {S.layout_class(rel)} file cut short after {order.index(dmg)}/{len(order)} damages")
+                    break
+                full = dmg in heavy
+                copy = make_copy(ctx, S.dir, rel, dmg)
+                try:
                     for batching in (True, False):
                         # ---- restore: needs every entry of the rank's manifest
-                        damaged = is_damaged(all_reads, rel, dmg, size)
-                        kind, wrong, exc = run_restore(S, copy, batching)
-                        judge(res, S, "restore", None, rel, dmg, batching, None, False, kind, wrong, damaged, exc)
-                        key = call_case(S.files, S.archives, S.fid, all_entries, None, rel, dmg, batching)
-                        note_case(res, cases, key, verdict_int(kind),
-                                  {"api": "restore", "spec": S.spec, "file_role": S.file_role(rel), "damage": list(dmg),
-                                   "batching": batching})
-                        res.case({"api": "restore", "layout": S.layout_class(rel), "dmg": dmg[0],
-                                  "cut": cut_class(S, rel, dmg), "batching": batching, "take_batching": S.spec["take_batching"],
-                                  "chunk": S.spec["chunk"], "slab": S.spec["slab"]}, nontrivial=True)
-                        res.count("call.api", "restore")
-                        res.count("call.verdict", kind)
-                        res.count("damage.kind", dmg[0] + ":" + S.layout_class(rel) + (":needed" if damaged else ":harmless"))
+                        if dmg in restore_pts:
+                            damaged = is_damaged(all_reads, rel, dmg, size)
+                            kind, wrong, exc = run_restore(S, copy, batching)
+                            judge(res, S, "restore", None, rel, dmg, batching, None, False, kind, wrong, damaged, exc)
+                            key = call_case(S.files, S.archives, S.fid, all_entries, None, rel, dmg, batching)
+                            note_case(res, cases, key, verdict_int(kind),
+                                      {"api": "restore", "spec": S.spec, "file_role": S.file_role(rel), "damage": list(dmg),
+                                       "batching": batching})
+                            res.case({"api": "restore", "layout": S.layout_class(rel), "dmg": dmg[0],
+                                      "cut": cut_class(S, rel, dmg), "batching": batching,
+                                      "take_batching": S.spec["take_batching"], "chunk": S.spec["chunk"],
+                                      "slab": S.spec["slab"]}, nontrivial=True)
+                            res.count("call.api", "restore")
+                            res.count("call.verdict", kind)
+                            res.count("damage.kind", dmg[0] + ":" + S.layout_class(rel) + (":needed" if damaged else ":harmless"))
                         # ---- read_object
                         sel = list(touching)
                         if full:
@@ -544,10 +600,10 @@ def sweep(ctx: Ctx, res: Result, S: Snap, cases: dict, deadline: float, every_le
                                           "limit": limit, "inplace": inplace, "touch": p in touching},
                                          nontrivial=p in touching)
                                 res.count("call.api", "read_object:" + entry_kind(e))
-                                res.count("call.verdict", kind)
+                                res.count("call.verdict", kind + (":needed-damage" if damaged else ""))
                                 res.count("read_object.limit", limit)
-            finally:
-                shutil.rmtree(copy, ignore_errors=True)
+                finally:
+                    shutil.rmtree(copy, ignore_errors=True)
 
 
 def cut_class(S: Snap, rel, dmg):
@@ -619,7 +675,7 @@ def check_load_assumption(ctx: Ctx, res: Result):
     """torch.load accepts the full archive (returns the saved object) and raises on EVERY strict prefix."""
     import io
     import torch
-    objs = [{1, 2, 3}, {"k": [1, 2], "q": (3, "x")}, "hello", (1, "x", 2.5), {"w": [1.5, 2.5], "n": 3}, frozenset({"a"})]
+    objs = [{1, 2, 3}, {"k": [1, 2], "q": (3, "x")}, "hello", (1, "x", 2.5), {"w": [1.5, 2.5], "n": 3}, [1, "a", None]]
     tens = [mk_tensor("complex64", [3], bytes(range(1, 25))), mk_tensor("complex64", [1], bytes(range(1, 9)))]
     if ctx.thorough:
         objs += [list(range(50)), {"nested": {"a": {"b": [1, 2, {"c": None}]}}}, b"bytes" * 10, 12345678901234567890]
@@ -652,7 +708,15 @@ def check_plan(ctx: Ctx, res: Result, snaps):
     from torchsnapshot.io_preparer import prepare_read
     coq, meta = [], []
     seen = set()
+    dup = []
+    hyp = []
     for S in snaps:
+        hyp += S.hypothesis_violations()
+        with quiet():
+            allr = [rr for e in S.entries.values() for rr in prepare_read(entry=e, obj_out=None)[0]]
+        ne = [(rr.path, tuple(rr.byte_range)) for rr in allr if rr.byte_range is not None and rr.byte_range[0] < rr.byte_range[1]]
+        if len(ne) != len(set(ne)):
+            dup.append(("restore", None))
         for p, e in S.entries.items():
             for limit in [None, 1, 7, 8, 20, 24, 1000]:
                 try:
@@ -670,6 +734,9 @@ def check_plan(ctx: Ctx, res: Result, snaps):
                     else:
                         k = []
                     obs.append([S.fid[rr.path], list(rr.byte_range) if rr.byte_range is not None else [], k])
+                ne = [(rr.path, tuple(rr.byte_range)) for rr in rrs if rr.byte_range is not None and rr.byte_range[0] < rr.byte_range[1]]
+                if len(ne) != len(set(ne)):
+                    dup.append((entry_kind(e), limit))
                 inp = term((None if limit is None else Some(limit), [entry_term(e, S.fid)]))
                 if inp in seen:
                     continue
@@ -678,6 +745,8 @@ def check_plan(ctx: Ctx, res: Result, snaps):
                 meta.append((entry_kind(e), limit, obs))
                 res.count("plan.kind", entry_kind(e))
                 res.count("plan.n_reqs", len(rrs))
+    res.obligations.append(Obligation("hypothesis:real-plans-have-distinct-non-empty-ranges", not dup, str(dup[:5])))
+    res.obligations.append(Obligation("hypothesis:committed-manifest-ranges-consistent-with-payload", not hyp, str(hyp[:5])))
     res.evaluations += len(coq)
     bad, errs = coqrun.run_cases("C04_plan", IMPORTS, "obs_rd_read_plan", coq, in_type="option Z * list rd_entry")
     for e in errs:
@@ -900,12 +969,17 @@ def check_legacy(ctx: Ctx, res: Result):
 # --------------------------------------------------------------------------- driver
 def gen_specs(ctx: Ctx):
     rng = ctx.rng
-    specs = []
-    nsn = ctx.n(3, 4)
-    for i in range(nsn):
+    # A: slabs of a few members, one group;  B: taken without batching (no slabs, every tensor its own file);
+    # C: one big slab, two groups (restore reads the whole manifest once per key);  D (thorough): random
+    specs = [
+        {"seed": rng.randrange(1 << 30), "chunk": rng.choice([40, 48]), "slab": rng.choice([30, 26, 34]), "take_batching": True,
+         "groups": 1},
+        {"seed": rng.randrange(1 << 30), "chunk": rng.choice([40, 64]), "slab": 30, "take_batching": False, "groups": 1},
+        {"seed": rng.randrange(1 << 30), "chunk": rng.choice([48, 100]), "slab": 4096, "take_batching": True, "groups": 2},
+    ]
+    for _ in range(ctx.n(0, 2)):
         specs.append({"seed": rng.randrange(1 << 30), "chunk": rng.choice([40, 48, 64, 100]),
-                      "slab": [30, 4096, 16, 64][i % 4] if i < 4 else rng.choice([16, 30, 64, 4096]),
-                      "take_batching": i % 3 != 1})
+                      "slab": rng.choice([16, 30, 64, 4096]), "take_batching": rng.random() < 0.7, "groups": rng.choice([1, 2])})
     return specs
 
 
